@@ -382,3 +382,433 @@ def search_scenarios(run_cases, pid, rng, budget):
                     return dict(case=c, result=dict(step=k, steps_ok=[s['ok'] for s in o['out']['steps']]), why='%s (step %d: %s)' % (why, k, c['steps'][k]['op']), replay_kind='scenario:' + pid)
         done += batch
     return None
+
+
+# ================================================================ registry / decimals / authority / routes
+
+def _ident(a):
+    return ('n', a['n'].encode()) if 'n' in a else ('t', bytes.fromhex(a['t']))
+
+
+def gen_key_cases(rng, budget):
+    pool = ['a', 'aa', 'aaa', 'aaab', 'b', 'bccc', 'ccc', 'uaura', 'uatom', 'uusd', 'ibc/27394FB092D2ECCD56123C74F36E4C1F926001CEADA9CA97EA622B25F41E5EB2', 'x' * 54, 'ab', 'abc', 'c', 'bc']
+    ids = []
+    for s in pool:
+        ids.append({'n': s})
+        ids.append({'t': s.encode().hex()})
+    for _ in range(10):
+        b = bytes(rng.randrange(256) for _ in range(rng.choice([1, 2, 20, 32])))
+        ids.append({'t': b.hex()})
+    out = []
+    for _ in range(budget):
+        a, b = rng.choice(ids), rng.choice(ids)
+        out.append(dict(kind='pair_key', a=a, b=b))
+        out.append(dict(kind='pair_key', a=b, b=a))
+    return out
+
+
+def check_key_cases(cases, outs):
+    """C16: symmetric in the arguments, injective over unordered identifier sets."""
+    seen = {}
+    for c, o in zip(cases, outs):
+        if not o.get('ok'):
+            continue
+        k = o['out']['key']
+        s = frozenset([_ident(c['a']), _ident(c['b'])]) if _ident(c['a']) != _ident(c['b']) else (_ident(c['a']),)
+        if s in [x for x in seen.get(k, [])]:
+            continue
+        for other in seen.get(k, []):
+            if other != s:
+                return dict(case=c, result=o, why='two different asset sets share the registry key %s: %s and %s' % (k, sorted(map(str, s)), sorted(map(str, other))), replay_kind='pair_key')
+        seen.setdefault(k, []).append(s)
+    bykey = {}
+    for c, o in zip(cases, outs):
+        if o.get('ok'):
+            s = frozenset([_ident(c['a']), _ident(c['b'])])
+            if s in bykey and bykey[s] != o['out']['key']:
+                return dict(case=c, result=o, why='the same asset set maps to two keys depending on argument order: %s vs %s' % (bykey[s], o['out']['key']), replay_kind='pair_key')
+            bykey[s] = o['out']['key']
+    return None
+
+
+NATIVE_POOL = ['uaura', 'uatom', 'uusd', 'aaa', 'aaab', 'bccc', 'ccc', 'uau']
+
+
+def gen_registry_scenario(rng):
+    """C16 / C17 / C14 at system level: creations, lookups in both orders, decimals registrations, foreign callers."""
+    nat = rng.sample(NATIVE_POOL, rng.randrange(3, 6))
+    decs = {d: rng.choice([6, 8, 9, 18]) for d in nat}
+    tdec = [rng.choice([6, 18]), rng.choice([6, 8, 18])]
+    natives = {'admin': {d: '10' for d in nat}, 'bob': {'uusd': '1000'}}
+    case = dict(kind='scenario', natives=natives, tokens=[{'name': 'A', 'decimals': tdec[0], 'balances': {'alice': '1000'}}, {'name': 'B', 'decimals': tdec[1], 'balances': {'alice': '1000'}}],
+                native_decimals=decs, watch=HOLDERS, pairs=[], steps=[], _truth=dict(native=dict(decs), token={'A': tdec[0], 'B': tdec[1]}))
+    assets = [{'native': d} for d in nat] + [{'token': 'A'}, {'token': 'B'}]
+    steps = case['steps']
+    created = []
+    for _ in range(rng.randrange(3, 9)):
+        c = rng.random()
+        if c < 0.45:
+            a, b = rng.sample(assets, 2)
+            if rng.random() < 0.08:
+                b = a
+            if rng.random() < 0.1:
+                b = {'native': 'unregistered'}
+            if created and rng.random() < 0.3:
+                a, b = rng.choice(created)
+                if rng.random() < 0.7:
+                    a, b = b, a
+            sender = 'admin' if rng.random() < 0.85 else 'mallory'
+            cr = rng.choice([None, '3000000000000000', '1000000000000000000', '1000000000000000001', '500000000000000000'])
+            steps.append(dict(op='create_pair', sender=sender, assets=[a, b], whitelist=['alice'], min=[str(rng.choice([0, 5])), str(rng.choice([0, 7]))], commission=cr))
+            created.append((a, b))
+        elif c < 0.8 and created:
+            a, b = rng.choice(created)
+            if rng.random() < 0.5:
+                a, b = b, a
+            steps.append(dict(op='query_pair', assets=[a, b]))
+        else:
+            d = rng.choice(nat)
+            sender = 'admin' if rng.random() < 0.85 else 'mallory'
+            steps.append(dict(op='add_native_decimals', sender=sender, denom=d, decimals=rng.choice([6, 8, 9, 10, 18])))
+    # finish with lookups of every created pair in both orders
+    for (a, b) in list(created):
+        steps.append(dict(op='query_pair', assets=[a, b]))
+        steps.append(dict(op='query_pair', assets=[b, a]))
+    return case
+
+
+def _akey(a):
+    return ('n:' + a['native']) if 'native' in a else ('t:' + a['token'])
+
+
+def check_registry_scenario(case, out):
+    v = []
+    if 'steps' not in out:
+        return v
+    truth_n = dict(case['_truth']['native'])
+    truth_t = case['_truth']['token']
+    registered = {}   # frozenset of asset keys -> (index in world pairs list)
+    order = []
+    prev = out['init']
+    for k, (st, res) in enumerate(zip(case['steps'], out['steps'])):
+        snap = res['snap']
+        op = st['op']
+        if op == 'create_pair':
+            a, b = st['assets']
+            s = frozenset([_akey(a), _akey(b)])
+            expect_ok = st.get('sender', 'admin') == 'admin' and _akey(a) != _akey(b) and s not in registered
+            for x in (a, b):
+                if 'native' in x and x['native'] not in truth_n:
+                    expect_ok = False
+            if st.get('commission') and int(st['commission']) > D:
+                expect_ok = False
+            if res['ok'] and st.get('sender', 'admin') != 'admin':
+                v.append(('C14', 'pair creation by a non-owner succeeded', k))
+            if res['ok'] and _akey(a) == _akey(b):
+                v.append(('C16', 'pair with two identical assets created', k))
+            if res['ok'] and s in registered:
+                v.append(('C16', 'asset set %s registered twice' % sorted(s), k))
+            if res['ok'] and not expect_ok and st.get('sender', 'admin') == 'admin' and _akey(a) != _akey(b) and s not in registered:
+                v.append(('C16', 'creation that must be rejected (unregistered denom / commission above 1) succeeded: %s' % st['assets'], k))
+            if not res['ok'] and expect_ok:
+                v.append(('C16', 'creation of a fresh, valid asset set %s was rejected: %s' % (sorted(s), res.get('err', '')[-120:]), k))
+            if res['ok']:
+                registered[s] = len(order)
+                order.append((a, b))
+        elif op == 'query_pair':
+            a, b = st['assets']
+            s = frozenset([_akey(a), _akey(b)])
+            if s in registered:
+                if not res['ok']:
+                    v.append(('C16', 'lookup of registered set %s in order %s failed' % (sorted(s), [_akey(a), _akey(b)]), k))
+                else:
+                    fac, own = res['res']['factory'], res['res']['own']
+                    idx = registered[s]
+                    want_addr = snap['pairs'][idx]['addr']
+                    if fac['contract_addr'] != want_addr:
+                        v.append(('C16', 'lookup of %s resolved to pair %s, created pair is %s' % (sorted(s), fac['contract_addr'], want_addr), k))
+                    for f in ('asset_infos', 'liquidity_token', 'asset_decimals', 'requirements', 'commission_rate'):
+                        if fac[f] != own[f]:
+                            v.append(('C16', 'factory record field %s = %s differs from the pair\'s own report %s' % (f, fac[f], own[f]), k))
+                            if f == 'asset_decimals':
+                                v.append(('C17', 'factory record decimals %s differ from the pair\'s own %s' % (fac[f], own[f]), k))
+            elif res['ok']:
+                v.append(('C16', 'lookup of unregistered set %s succeeded' % sorted(s), k))
+        elif op == 'add_native_decimals':
+            if res['ok'] and st.get('sender', 'admin') != 'admin':
+                v.append(('C14', 'decimals registration by a non-owner succeeded', k))
+            if res['ok']:
+                truth_n[st['denom']] = st['decimals']
+        if not res['ok'] and snap != prev:
+            v.append(('C14', 'rejected %s changed state' % op, k))
+        # after every step: each registered pair's own decimals == factory record == truth in each position
+        for i, (a, b) in enumerate(order):
+            if i >= len(snap['pairs']):
+                continue
+            p = snap['pairs'][i]
+            own, fac = p['own_decimals'], p['factory_decimals']
+            # the world lists asset order as stored by the pair (creation order)
+            want = []
+            for x in (a, b):
+                want.append(truth_n.get(x['native']) if 'native' in x else truth_t[x['token']])
+            if own != fac:
+                v.append(('C17', 'pair %d: own decimals %s != factory record %s after %s' % (i, own, fac, op), k))
+            if own is not None and own != want:
+                v.append(('C17', 'pair %d %s: decimals %s, registered values are %s after %s' % (i, [_akey(a), _akey(b)], own, want, op), k))
+                if op == 'create_pair':
+                    v.append(('C16', 'pair %d recorded decimals %s, true decimals %s' % (i, own, want), k))
+        prev = snap
+    return v
+
+
+def gen_auth_scenario(rng):
+    """C14: every privileged / internal entry point, called by strangers and by former owners."""
+    natives = {'admin': {'uusd': '10', 'uaura': '10'}, 'mallory': {'uusd': '1000000', 'uaura': '1000000'}, 'alice': {'uusd': str(10 ** 12), 'uaura': str(10 ** 12)}}
+    big = str(10 ** 20)
+    case = dict(kind='scenario', natives=natives, tokens=[{'name': 'A', 'decimals': 6, 'balances': {'alice': big, 'mallory': big}}, {'name': 'R', 'decimals': 6, 'balances': {'mallory': big}}],
+                native_decimals={'uusd': 6, 'uaura': 6}, watch=HOLDERS,
+                pairs=[dict(assets=[{'native': 'uusd'}, {'token': 'A'}], whitelist=['alice'], commission='3000000000000000'), dict(assets=[{'native': 'uusd'}, {'native': 'uaura'}], whitelist=['alice'], commission='3000000000000000')], steps=[])
+    steps = case['steps']
+    steps.append(dict(op='provide', pair=0, sender='alice', amounts=['1000000', '2000000']))
+    steps.append(dict(op='provide', pair=1, sender='alice', amounts=['1000000', '3000000']))
+    owner = 'admin'
+    former = []
+    for _ in range(rng.randrange(4, 9)):
+        who = rng.choice(['mallory', 'bob'] + former + [owner])
+        c = rng.randrange(9)
+        exp = None
+        if c == 0:
+            new = rng.choice(['carol', 'bob', None])
+            ids = rng.choice([None, 77])
+            msg = {'update_config': {'owner': new, 'token_code_id': ids, 'pair_code_id': None}}
+            st = dict(op='exec_raw', contract='factory', sender=who, msg=msg, _auth=(who == owner))
+            if who == owner and new:
+                st['_new_owner'] = new
+            steps.append(st)
+            if who == owner and new:
+                former.append(owner)
+                owner = new
+            continue
+        if c == 1:
+            st = dict(op='add_native_decimals', sender=who, denom='uusd', decimals=rng.choice([6, 7]), _auth=(who == owner), _needs_owner=True)
+        elif c == 2:
+            st = dict(op='exec_raw', contract='factory', sender=who, msg={'migrate_pair': {'contract': '$pair0', 'code_id': None}}, _auth=(who == owner), _may_fail=True)
+        elif c == 3:
+            st = dict(op='exec_raw', contract='pair%d' % rng.randrange(2), sender=who, msg={'update_native_token_decimals': {'denom': rng.choice(['uusd', 'uaura', 'zzz']), 'asset_decimals': [rng.choice([3, 18]), rng.choice([0, 18])]}}, _auth=False)
+        elif c == 4:
+            st = dict(op='exec_raw', contract='router', sender=who, msg={'assert_minimum_receive': {'asset_info': {'native_token': {'denom': 'uusd'}}, 'prev_balance': '0', 'minimum_receive': rng.choice(['0', '1', '1000000000']), 'receiver': who}}, _auth=False)
+        elif c == 5:
+            st = dict(op='exec_raw', contract='router', sender=who, funds=rng.choice([{}, {'uusd': '1000'}]), msg={'execute_swap_operation': {'operation': {'halo_swap': {'offer_asset_info': {'native_token': {'denom': 'uusd'}}, 'ask_asset_info': {'token': {'contract_addr': '$tok:A'}}}}, 'to': rng.choice([None, who])}}, _auth=False)
+        elif c == 6:
+            # withdraw hook sent through a token that is not the pair's LP token
+            st = dict(op='withdraw', pair=0, sender='mallory', amount='1000', via_token=rng.choice(['A', 'R']), _auth=False)
+        elif c == 7:
+            # swap hook from a cw20 that is not an asset of the pair
+            st = dict(op='exec_raw', contract='R', sender='mallory', msg={'send': {'contract': '$pair0', 'amount': '1000', 'msg': '$b64:{"swap":{"offer_asset":{"info":{"token":{"contract_addr":"$tok:%s"}},"amount":"1000"},"belief_price":null,"max_spread":null,"to":null}}' % rng.choice(['A', 'R'])}}, _auth=False)
+        else:
+            st = dict(op='create_pair', sender=who, assets=[{'native': 'uaura'}, {'token': 'A'}], whitelist=['alice'], _auth=(who == owner), _once=True)
+        steps.append(st)
+    # final probe: the current owner can still act, every former owner cannot
+    for f in former[-2:]:
+        steps.append(dict(op='exec_raw', contract='factory', sender=f, msg={'update_config': {'owner': None, 'token_code_id': 5, 'pair_code_id': None}}, _auth=False))
+    steps.append(dict(op='exec_raw', contract='factory', sender=owner, msg={'update_config': {'owner': None, 'token_code_id': 6, 'pair_code_id': None}}, _auth=True, _must=True))
+    return case
+
+
+def check_auth_scenario(case, out):
+    v = []
+    if 'steps' not in out:
+        return v
+    prev = out['init']
+    for k, (st, res) in enumerate(zip(case['steps'], out['steps'])):
+        snap = res['snap']
+        if '_auth' in st:
+            if res['ok'] and not st['_auth']:
+                v.append(('C14', '%s by %s succeeded although the caller is not the required authority: %s' % (st['op'], st.get('sender'), str(st.get('msg', ''))[:160]), k))
+            if not res['ok'] and st['_auth'] and st.get('_must'):
+                v.append(('C14', 'the current owner %s was rejected: %s' % (st.get('sender'), res.get('err', '')[-120:]), k))
+        if not res['ok'] and snap != prev:
+            v.append(('C14', 'rejected call changed state', k))
+        prev = snap
+    return v
+
+
+def gen_route_scenario(rng):
+    """C11 / C13 / C12(router): routes of 1..4 hops over a chain of pairs, both entry points."""
+    natives = {'admin': {'uusd': '10', 'uaura': '10'}}
+    big = str(10 ** 30)
+    for a in ACTORS:
+        natives[a] = {'uusd': big, 'uaura': big}
+    toks = ['A', 'B', 'C']
+    case = dict(kind='scenario', natives=natives, tokens=[{'name': t, 'decimals': rng.choice([6, 18]), 'balances': {a: big for a in ACTORS}} for t in toks],
+                native_decimals={'uusd': 6, 'uaura': 6}, watch=HOLDERS, pairs=[], steps=[])
+    nodes = [{'native': 'uusd'}, {'token': 'A'}, {'token': 'B'}, {'native': 'uaura'}, {'token': 'C'}]
+    rng.shuffle(nodes)
+    edges = []
+    for i in range(len(nodes) - 1):
+        edges.append((nodes[i], nodes[i + 1]))
+    if rng.random() < 0.6:
+        edges.append((nodes[-1], nodes[0]))     # closes a cycle
+    if rng.random() < 0.4:
+        edges.append((nodes[0], nodes[2]))
+    for (a, b) in edges:
+        case['pairs'].append(dict(assets=[a, b] if rng.random() < 0.5 else [b, a], whitelist=['alice'], commission=rng.choice(['3000000000000000', '0', '30000000000000000'])))
+    steps = case['steps']
+    for i in range(len(edges)):
+        steps.append(dict(op='provide', pair=i, sender='alice', amounts=[str(rng.randrange(10 ** 6, 10 ** 13)), str(rng.randrange(10 ** 6, 10 ** 13))]))
+    adj = {}
+    for (a, b) in edges:
+        adj.setdefault(_akey(a), []).append(b)
+        adj.setdefault(_akey(b), []).append(a)
+    for _ in range(rng.randrange(2, 5)):
+        start = rng.choice(nodes)
+        route = []
+        cur = start
+        used = set()
+        for _h in range(rng.randrange(1, 5)):
+            nxt = [n for n in adj.get(_akey(cur), []) if frozenset([_akey(cur), _akey(n)]) not in used]
+            if not nxt:
+                break
+            n = rng.choice(nxt)
+            used.add(frozenset([_akey(cur), _akey(n)]))
+            route.append([cur, n])
+            cur = n
+        if not route:
+            continue
+        amt = rng.randrange(1000, 10 ** 9)
+        sender = rng.choice(['bob', 'mallory'])
+        to = rng.choice([None, 'carol', sender])
+        steps.append(dict(op='router_simulate', route=route, amount=str(amt), _for=len(steps) + 1))
+        st = dict(op='router_swap', sender=sender, route=route, amount=str(amt), to=to, minimum_receive=None, _route=True)
+        mode = rng.random()
+        st['_min_mode'] = 'none' if mode < 0.3 else ('le' if mode < 0.55 else ('eq' if mode < 0.75 else 'gt'))
+        steps.append(st)
+    if rng.random() < 0.3:
+        steps.append(dict(op='router_swap', sender='bob', route=[], amount='0', to=None, minimum_receive=None, _empty=True))
+    if rng.random() < 0.6 and len(edges) >= 2:
+        # hops in arbitrary order / direction: accepted only if the remove-offer / insert-ask fold leaves exactly one asset
+        hops = []
+        for _w in range(rng.randrange(2, 5)):
+            (a, b) = rng.choice(edges)
+            hops.append([a, b] if rng.random() < 0.5 else [b, a])
+        if rng.random() < 0.5 and len(edges) >= 2:
+            (a, b) = edges[0]
+            (c, d) = edges[1]
+            # produce an asset again after its only consumer has run: [x->y, y->z, w->y]
+            if _akey(b) == _akey(c):
+                hops = [[a, b], [c, d], [rng.choice(nodes), b]]
+        entry = hops[0][0]
+        steps.append(dict(op='router_swap', sender='bob', route=hops, amount='100000', to=None, minimum_receive=None, _dangling=True, entry=entry))
+    if rng.random() < 0.4 and len(edges) >= 2:
+        # two dangling outputs: hops that do not chain
+        (a, b), (c, d) = edges[0], edges[-1]
+        steps.append(dict(op='router_swap', sender='bob', route=[[a, b], [c, d]] if _akey(b) != _akey(c) else [[a, b], [d, c]], amount='1000', to=None, minimum_receive=None, _dangling=True))
+    return case
+
+
+def finalize_route_case(case, sim_out):
+    """Second pass: fill minimum_receive from a dry run's simulation results (around the quoted output)."""
+    if 'steps' not in sim_out:
+        return case
+    for k, st in enumerate(case['steps']):
+        if st.get('_route') and k > 0 and case['steps'][k - 1]['op'] == 'router_simulate':
+            r = sim_out['steps'][k - 1]
+            if r['ok']:
+                q = int(r['res']['amount'])
+                m = st['_min_mode']
+                st['minimum_receive'] = None if m == 'none' else str(max(0, q - 1) if m == 'le' else (q if m == 'eq' else q + 1))
+                st['_quote'] = q
+    return case
+
+
+def check_route_scenario(case, out):
+    v = []
+    if 'steps' not in out:
+        return v
+    prev = out['init']
+    router = out['init'].get('router')
+    for k, (st, res) in enumerate(zip(case['steps'], out['steps'])):
+        snap = res['snap']
+        if st.get('_empty') and res['ok']:
+            v.append(('C13', 'empty route accepted', k))
+        if st.get('_dangling') and res['ok']:
+            outs = set()
+            for (a, b) in st['route']:
+                outs.discard(_akey(a))
+                outs.add(_akey(b))
+            if len(outs) > 1:
+                v.append(('C13', 'route with %d dangling output assets accepted' % len(outs), k))
+        if st.get('_route') and '_quote' in st and k > 0 and case['steps'][k - 1]['op'] == 'router_simulate' and out['steps'][k - 1]['ok']:
+            q = int(out['steps'][k - 1]['res']['amount'])     # the quote taken in THIS run, in the state the route executes in
+            recv = st.get('to') or st['sender']
+            last = st['route'][-1][1]
+            first = st['route'][0][0]
+            tokens = out.get('tokens', {})
+            lk = asset_key(last, tokens)
+            fk = asset_key(first, tokens)
+            before = int(prev['accounts'][recv].get(lk, '0'))
+            after = int(snap['accounts'][recv].get(lk, '0'))
+            delta = after - before + (int(st['amount']) if (recv == st['sender'] and lk == fk) else 0)
+            m = st.get('minimum_receive')
+            if res['ok']:
+                if delta != q:
+                    v.append(('C13', 'recipient %s received %d of %s, router simulation quoted %d' % (recv, delta, lk, q), k))
+                    v.append(('C12', 'router quote %d differs from the executed route %d' % (q, delta), k))
+                if m is not None and after - before < int(m) and not (recv == st['sender'] and lk == fk):
+                    v.append(('C11', 'route succeeded with minimum_receive %s but the recipient balance grew by %d' % (m, after - before), k))
+                for key, val in snap['accounts'].get(router, {}).items():
+                    if int(val) != int(prev['accounts'].get(router, {}).get(key, '0')):
+                        v.append(('C13', 'router balance of %s changed %s -> %s: the route did not pass everything through' % (key, prev['accounts'].get(router, {}).get(key, '0'), val), k))
+                sb = int(prev['accounts'][st['sender']].get(fk, '0')) - int(snap['accounts'][st['sender']].get(fk, '0'))
+                if lk != fk and sb != int(st['amount']):
+                    v.append(('C13', 'sender paid %d of %s, offered %s' % (sb, fk, st['amount']), k))
+                for who in HOLDERS:
+                    if who not in (st['sender'], recv) and prev['accounts'][who] != snap['accounts'][who]:
+                        v.append(('C07', 'bystander %s balances changed by a route' % who, k))
+            else:
+                if snap != prev:
+                    v.append(('C11', 'failed route changed state', k))
+                if m is not None and q >= int(m) and len({_akey(h[0]) for h in st['route']} | {_akey(h[1]) for h in st['route']}) == len(st['route']) + 1:
+                    v.append(('C11', 'route quoted %d >= minimum_receive %s but was rejected: %s' % (q, m, res.get('err', '')[-120:]), k))
+        prev = snap
+    return v
+
+
+def search_special(run_cases, pid, rng, budget):
+    """Registry / decimals / authority / route scenarios and the unit-level key search."""
+    if pid == 'C16':
+        cases = gen_key_cases(rng, 1500)
+        outs = run_cases(cases)
+        if outs is None:
+            return None
+        hit = check_key_cases(cases, outs)
+        if hit:
+            return hit
+    gens = []
+    if pid in ('C16', 'C17', 'C14'):
+        gens.append((gen_registry_scenario, check_registry_scenario, False))
+    if pid == 'C14':
+        gens.append((gen_auth_scenario, check_auth_scenario, False))
+    if pid in ('C11', 'C13', 'C12', 'C07'):
+        gens.append((gen_route_scenario, check_route_scenario, True))
+    done = 0
+    batch = 30
+    while gens and done < budget:
+        for g, chk, two_pass in gens:
+            cases = [g(rng) for _ in range(batch)]
+            outs = run_cases(cases)
+            if outs is None:
+                return None
+            if two_pass:
+                cases = [finalize_route_case(c, o.get('out', {})) if o.get('ok') else c for c, o in zip(cases, outs)]
+                outs = run_cases(cases)
+                if outs is None:
+                    return None
+            for c, o in zip(cases, outs):
+                if not o.get('ok'):
+                    continue
+                for (p, why, k) in chk(c, o['out']):
+                    if p == pid:
+                        return dict(case=c, result=dict(step=k, steps_ok=[s['ok'] for s in o['out']['steps']]), why='%s (step %d: %s)' % (why, k, c['steps'][k]['op']), replay_kind='special:%s:%s' % (chk.__name__, pid))
+        done += batch
+    return None
